@@ -240,24 +240,16 @@ func checkC04(p *Prog, r *Report) {
 	}
 	ccFn := p.Fn("Agent.connectivityChecks")
 	// roles of the tick's captured locals, by what defines them
-	checkingTimeoutObj := p.localByDef(ccFn, func(rhs ast.Expr) bool {
-		c, ok := unparen(rhs).(*ast.CallExpr)
-		return ok && p.CalleeName(c) == "ice.Agent.initialCheckingTimeout"
-	})
-	checkingSinceObj := p.localByDef(p.Fn("Agent.connectivityChecks$1$1"), func(rhs ast.Expr) bool {
-		c, ok := unparen(rhs).(*ast.CallExpr)
-		return ok && p.CalleeName(c) == "time.Now"
-	})
-	lastStateObj := p.localByDef(p.Fn("Agent.connectivityChecks$1$1"), func(rhs ast.Expr) bool { return p.IsField(rhs, "Agent.connectionState") })
+	ticks, checkingTimeoutObj, checkingSinceObj, lastStateObj := p.tickRoles(ccFn)
 	r.Anchor("connectivityChecks: checking deadline variable", checkingTimeoutObj != nil)
 	r.Anchor("connectivityChecks: checking start variable", checkingSinceObj != nil)
 	r.Anchor("connectivityChecks: previous-state variable", lastStateObj != nil)
 	table := map[string]site{
 		"Agent.startConnectivityChecks$1": {"ConnectionStateChecking", nil},
-		"Agent.connectivityChecks$1$1": {"ConnectionStateFailed", func(f *Func, facts FactSet) (bool, string) {
+		"<tick>": {"ConnectionStateFailed", func(f *Func, facts FactSet) (bool, string) {
 			checking := hasStateEq(facts, "ConnectionStateChecking", true)
 			enabled := facts.Has(func(ft Fact) bool {
-				return ft.Op == "==" && !ft.Val && p.isObj(ft.X, checkingTimeoutObj) && p.constName(ft.Y) == "0"
+				return ft.Op == "==" && !ft.Val && p.isLoc(ft.X, checkingTimeoutObj) && p.constName(ft.Y) == "0"
 			})
 			exceeded := facts.Has(func(ft Fact) bool {
 				// checkingTimeout < time.Since(...)
@@ -265,7 +257,7 @@ func checkC04(p *Prog, r *Report) {
 					return false
 				}
 				c, ok2 := unparen(ft.Y).(*ast.CallExpr)
-				return p.isObj(ft.X, checkingTimeoutObj) && ok2 && p.CalleeName(c) == "time.Since"
+				return p.isLoc(ft.X, checkingTimeoutObj) && ok2 && p.CalleeName(c) == "time.Since"
 			})
 			return checking && enabled && exceeded, fmt.Sprintf("while Checking=%v deadline enabled=%v exceeded=%v", checking, enabled, exceeded)
 		}},
@@ -280,6 +272,13 @@ func checkC04(p *Prog, r *Report) {
 			return hasStateEq(facts, "ConnectionStateNew", false), "connectionState != New"
 		}},
 		"newAgentWithConfig$1": {"ConnectionStateClosed", nil},
+	}
+	for _, tf := range ticks {
+		table[tf.Name] = table["<tick>"]
+	}
+	delete(table, "<tick>")
+	if len(ticks) == 0 {
+		table["Agent.connectivityChecks$1$1"] = site{"ConnectionStateFailed", nil} // reported as a lost site below
 	}
 	seen := map[string]bool{}
 	for _, e := range p.Callers(ucs) {
@@ -586,106 +585,7 @@ func checkC04(p *Prog, r *Report) {
 
 	// ---- R4.5 the check tick ---------------------------------------------------------------
 	r.Rule("R4.5", "The check tick does nothing while Failed; while Checking it (re)arms the deadline whenever the state was entered since the previous tick, fails the agent once the enabled deadline has passed, and otherwise contacts candidates; the previous-tick state is recorded on every exit of the tick.", 6)
-	tick := p.Fn("Agent.connectivityChecks$1$1")
-	if r.Anchor("check tick closure", tick != nil) {
-		t := p.NewTable(tick)
-		t.Event = func(n ast.Node, _ *TEnv) []string {
-			var out []string
-			if as, ok := n.(*ast.AssignStmt); ok && len(as.Lhs) == 1 {
-				if p.isObj(as.Lhs[0], checkingSinceObj) {
-					out = append(out, "arm")
-				}
-			}
-			for _, c := range p.NodeCalls(n) {
-				switch p.CalleeName(c) {
-				case "ice.Agent.updateConnectionState":
-					out = append(out, "state="+strings.TrimPrefix(p.constName(c.Args[0]), "ConnectionState"))
-				case "ice.pairCandidateSelector.ContactCandidates":
-					out = append(out, "contact")
-				}
-			}
-			return out
-		}
-		t.Run()
-		for _, sp := range t.Semantic(func(a *TAtom) (string, bool) {
-			switch a.Kind {
-			case "enum":
-				if p.IsField(a.X, "Agent.connectionState") {
-					return "state", false
-				}
-				if p.isObj(a.X, checkingTimeoutObj) {
-					return "enabled", false
-				}
-			case "ord":
-				if p.MentionsField(a.X, "Agent.connectionState") || p.MentionsField(a.Y, "Agent.connectionState") {
-					return "entered", false
-				}
-				// checkingTimeout ? time.Since(...)
-				if p.isObj(a.X, checkingTimeoutObj) {
-					return "deadline", false
-				}
-				if p.isObj(a.Y, checkingTimeoutObj) {
-					return "deadline", true
-				}
-			}
-			return "", false
-		}) {
-			if len(sp.Unclassified) > 0 {
-				r.Fail("check tick", sp.EndPos, "the tick depends on an unexpected condition "+strings.Join(sp.Unclassified, ","))
-				continue
-			}
-			ev := strings.Join(sp.Events, ",")
-			want := "contact"
-			switch {
-			case enumConsistent(sp.Vals, "state", "ConnectionStateFailed") && sp.Vals["state"] == "==ConnectionStateFailed":
-				want = ""
-			case sp.Vals["state#2"] == "==ConnectionStateChecking" || sp.Vals["state"] == "==ConnectionStateChecking":
-				armed := sp.Vals["entered"] != "EQ"
-				pre := ""
-				if armed {
-					pre = "arm,"
-				}
-				if sp.Vals["enabled"] == "!=0" && sp.Vals["deadline"] == "LT" {
-					want = pre + "state=Failed"
-				} else {
-					want = pre + "contact"
-				}
-			}
-			r.Check(ev == want, "check tick row "+rowKey(sp, "state", "state#2", "entered", "enabled", "deadline"), sp.EndPos, "-> ["+want+"]", "the tick does ["+ev+"], the documented behaviour is ["+want+"]")
-		}
-		// previous-tick state recorded on every exit: a deferred assignment
-		deferred := false
-		walkBody(tick, func(n ast.Node) bool {
-			if d, ok := n.(*ast.DeferStmt); ok {
-				if lit, ok := unparen(d.Call.Fun).(*ast.FuncLit); ok {
-					ast.Inspect(lit.Body, func(x ast.Node) bool {
-						if as, ok := x.(*ast.AssignStmt); ok && len(as.Lhs) == 1 {
-							if p.isObj(as.Lhs[0], lastStateObj) && p.IsField(as.Rhs[0], "Agent.connectionState") {
-								deferred = true
-							}
-						}
-						return true
-					})
-				}
-			}
-			return true
-		})
-		if !deferred {
-			// otherwise every exit path must pass through the assignment
-			g := p.CFG(tick)
-			isAssign := func(n ast.Node) bool {
-				as, ok := n.(*ast.AssignStmt)
-				if !ok || len(as.Lhs) != 1 {
-					return false
-				}
-				return p.isObj(as.Lhs[0], lastStateObj)
-			}
-			_, escapes := g.PathAvoiding(Loc{g.Entry, 0}, isAssign, func(b *Block) bool { return b == g.Exit }, nil)
-			r.Check(!escapes, "check tick: previous state recorded on every exit", p.Pos(tick.Body.Pos()), "every path assigns lastConnectionState", "some exit of the tick (the Failed / deadline early returns) does not record the state seen: after Restart the Checking deadline is not re-armed and the agent fails at once")
-		} else {
-			r.OK("check tick: previous state recorded on every exit", p.Pos(tick.Body.Pos()), "deferred assignment of lastConnectionState")
-		}
-	}
+	checkTickDiscipline(p, r)
 
 	// ---- R4.6 what counts as "not silent" ------------------------------------------------------------
 	r.Rule("R4.6", "Every datagram accepted from a known remote candidate refreshes that candidate's last-received time, application data as well as STUN: the cached-source fast path marks the cached candidate seen on every path on which it accepts, and the slow path marks the candidate it found; so a selected remote that keeps sending data is never declared silent.", 2)
@@ -831,4 +731,247 @@ func (p *Prog) localByDef(f *Func, pred func(rhs ast.Expr) bool) types.Object {
 func (p *Prog) isObj(e ast.Expr, o types.Object) bool {
 	id, ok := unparen(e).(*ast.Ident)
 	return ok && o != nil && p.ObjOf(id) == o
+}
+
+
+// isLoc: e denotes the storage location o — a local variable (by object) or a struct field (by field).
+func (p *Prog) isLoc(e ast.Expr, o types.Object) bool {
+	if o == nil {
+		return false
+	}
+	e = unparen(e)
+	if id, ok := e.(*ast.Ident); ok {
+		return p.ObjOf(id) == o
+	}
+	if fv := p.FieldOf(e); fv != nil {
+		return types.Object(fv) == o
+	}
+	return false
+}
+
+// locByDef: the location (local or field) that some assignment in f1 / f2 — or a field of a composite
+// literal there — gives a value accepted by pred. Roles of state variables are resolved by what is
+// stored in them, not by their names or by whether they are locals or fields.
+func (p *Prog) locByDef(f1, f2 *Func, pred func(rhs ast.Expr) bool) types.Object {
+	var found types.Object
+	for _, f := range []*Func{f1, f2} {
+		if f == nil || found != nil {
+			continue
+		}
+		var scan func(g *Func)
+		scan = func(g *Func) {
+			walkBody(g, func(n ast.Node) bool {
+				switch x := n.(type) {
+				case *ast.AssignStmt:
+					if len(x.Lhs) == len(x.Rhs) {
+						for i, rr := range x.Rhs {
+							if found == nil && pred(rr) {
+								l := unparen(x.Lhs[i])
+								if id, ok := l.(*ast.Ident); ok {
+									found = p.ObjOf(id)
+								} else if fv := p.FieldOf(l); fv != nil {
+									found = fv
+								}
+							}
+						}
+					}
+				case *ast.ValueSpec:
+					for i, v := range x.Values {
+						if found == nil && i < len(x.Names) && pred(v) {
+							found = p.ObjOf(x.Names[i])
+						}
+					}
+				case *ast.KeyValueExpr:
+					if found == nil && pred(x.Value) {
+						if id, ok := x.Key.(*ast.Ident); ok {
+							if v, isVar := p.ObjOf(id).(*types.Var); isVar && v.IsField() {
+								found = v
+							}
+						}
+					}
+				}
+				return true
+			})
+			for _, l := range g.Lits {
+				scan(l)
+			}
+		}
+		scan(f)
+	}
+	return found
+}
+
+// checkTickFuncs: the function literals handed to taskloop.Loop.Run that call the selector's
+// ContactCandidates and belong to the connectivity-check loop (inside connectivityChecks or a
+// function it calls directly).
+func (p *Prog) checkTickFuncs(cc *Func) []*Func {
+	if cc == nil {
+		return nil
+	}
+	roots := map[*Func]bool{cc: true}
+	var mark func(g *Func)
+	mark = func(g *Func) {
+		walkBody(g, func(n ast.Node) bool {
+			if c, ok := n.(*ast.CallExpr); ok {
+				if o := p.Callee(c); o != nil {
+					if h := p.ByObj[o]; h != nil && h.Body != nil && h.Pkg == p.Ice && strings.HasPrefix(h.Name, "Agent.") {
+						roots[h] = true
+					}
+				}
+			}
+			return true
+		})
+		for _, l := range g.Lits {
+			mark(l)
+		}
+	}
+	mark(cc)
+	var out []*Func
+	for _, f := range p.AllFuncs {
+		if f.Lit == nil || !roots[f.Root()] {
+			continue
+		}
+		if len(p.CallsTo(f, false, "ice.pairCandidateSelector.ContactCandidates")) == 0 {
+			continue
+		}
+		isTask := false
+		for _, e := range p.Callers(f) {
+			if e.Kind == "arg" && e.Via == "taskloop.Loop.Run" {
+				isTask = true
+			}
+		}
+		if isTask {
+			out = append(out, f)
+		}
+	}
+	return out
+}
+
+
+// tickRoles: the check tick — the loop task(s) that contact the candidates, wherever the refactoring of the
+// day put them (a closure inside connectivityChecks, or a method it calls) — and the locations (locals or
+// fields) that hold its state, identified by what is stored in them.
+func (p *Prog) tickRoles(ccFn *Func) (ticks []*Func, checkingTimeoutObj, checkingSinceObj, lastStateObj types.Object) {
+	ticks = p.checkTickFuncs(ccFn)
+	var tick0 *Func
+	if len(ticks) > 0 {
+		tick0 = ticks[0]
+	}
+	checkingTimeoutObj = p.locByDef(ccFn, tick0, func(rhs ast.Expr) bool {
+		c, ok := unparen(rhs).(*ast.CallExpr)
+		return ok && p.CalleeName(c) == "ice.Agent.initialCheckingTimeout"
+	})
+	checkingSinceObj = p.locByDef(tick0, nil, func(rhs ast.Expr) bool {
+		c, ok := unparen(rhs).(*ast.CallExpr)
+		return ok && p.CalleeName(c) == "time.Now"
+	})
+	lastStateObj = p.locByDef(tick0, nil, func(rhs ast.Expr) bool { return p.IsField(rhs, "Agent.connectionState") })
+	return
+}
+
+// checkTickDiscipline: the decision table of the check tick and "the previous state is recorded on every
+// exit" (C04 R4.5; shared with C01 R1.12 and C06 R6.9).
+func checkTickDiscipline(p *Prog, r *Report) {
+	ticks, checkingTimeoutObj, checkingSinceObj, lastStateObj := p.tickRoles(p.Fn("Agent.connectivityChecks"))
+	r.Anchor("check tick closure", len(ticks) > 0)
+	for _, tick := range ticks {
+		t := p.NewTable(tick)
+		t.Event = func(n ast.Node, _ *TEnv) []string {
+			var out []string
+			if as, ok := n.(*ast.AssignStmt); ok && len(as.Lhs) == 1 {
+				if p.isLoc(as.Lhs[0], checkingSinceObj) {
+					out = append(out, "arm")
+				}
+			}
+			for _, c := range p.NodeCalls(n) {
+				switch p.CalleeName(c) {
+				case "ice.Agent.updateConnectionState":
+					out = append(out, "state="+strings.TrimPrefix(p.constName(c.Args[0]), "ConnectionState"))
+				case "ice.pairCandidateSelector.ContactCandidates":
+					out = append(out, "contact")
+				}
+			}
+			return out
+		}
+		t.Run()
+		for _, sp := range t.Semantic(func(a *TAtom) (string, bool) {
+			switch a.Kind {
+			case "enum":
+				if p.IsField(a.X, "Agent.connectionState") {
+					return "state", false
+				}
+				if p.isLoc(a.X, checkingTimeoutObj) {
+					return "enabled", false
+				}
+			case "ord":
+				if p.MentionsField(a.X, "Agent.connectionState") || p.MentionsField(a.Y, "Agent.connectionState") {
+					return "entered", false
+				}
+				// checkingTimeout ? time.Since(...)
+				if p.isLoc(a.X, checkingTimeoutObj) {
+					return "deadline", false
+				}
+				if p.isLoc(a.Y, checkingTimeoutObj) {
+					return "deadline", true
+				}
+			}
+			return "", false
+		}) {
+			if len(sp.Unclassified) > 0 {
+				r.Fail("check tick", sp.EndPos, "the tick depends on an unexpected condition "+strings.Join(sp.Unclassified, ","))
+				continue
+			}
+			ev := strings.Join(sp.Events, ",")
+			want := "contact"
+			switch {
+			case enumConsistent(sp.Vals, "state", "ConnectionStateFailed") && sp.Vals["state"] == "==ConnectionStateFailed":
+				want = ""
+			case sp.Vals["state#2"] == "==ConnectionStateChecking" || sp.Vals["state"] == "==ConnectionStateChecking":
+				armed := sp.Vals["entered"] != "EQ"
+				pre := ""
+				if armed {
+					pre = "arm,"
+				}
+				if sp.Vals["enabled"] == "!=0" && sp.Vals["deadline"] == "LT" {
+					want = pre + "state=Failed"
+				} else {
+					want = pre + "contact"
+				}
+			}
+			r.Check(ev == want, "check tick row "+rowKey(sp, "state", "state#2", "entered", "enabled", "deadline"), sp.EndPos, "-> ["+want+"]", "the tick does ["+ev+"], the documented behaviour is ["+want+"]")
+		}
+		// previous-tick state recorded on every exit: a deferred assignment
+		deferred := false
+		walkBody(tick, func(n ast.Node) bool {
+			if d, ok := n.(*ast.DeferStmt); ok {
+				if lit, ok := unparen(d.Call.Fun).(*ast.FuncLit); ok {
+					ast.Inspect(lit.Body, func(x ast.Node) bool {
+						if as, ok := x.(*ast.AssignStmt); ok && len(as.Lhs) == 1 {
+							if p.isLoc(as.Lhs[0], lastStateObj) && p.IsField(as.Rhs[0], "Agent.connectionState") {
+								deferred = true
+							}
+						}
+						return true
+					})
+				}
+			}
+			return true
+		})
+		if !deferred {
+			// otherwise every exit path must pass through the assignment
+			g := p.CFG(tick)
+			isAssign := func(n ast.Node) bool {
+				as, ok := n.(*ast.AssignStmt)
+				if !ok || len(as.Lhs) != 1 {
+					return false
+				}
+				return p.isLoc(as.Lhs[0], lastStateObj)
+			}
+			_, escapes := g.PathAvoiding(Loc{g.Entry, 0}, isAssign, func(b *Block) bool { return b == g.Exit }, nil)
+			r.Check(!escapes, "check tick: previous state recorded on every exit", p.Pos(tick.Body.Pos()), "every path assigns lastConnectionState", "some exit of the tick (the Failed / deadline early returns) does not record the state seen: after Restart the Checking deadline is not re-armed and the agent fails at once")
+		} else {
+			r.OK("check tick: previous state recorded on every exit", p.Pos(tick.Body.Pos()), "deferred assignment of lastConnectionState")
+		}
+	}
+
 }
